@@ -1,6 +1,7 @@
 """C06 — RETE fires a rule exactly for live facts that satisfy it (DESIGN §4 C06).
 a liveness gate before the action  b condition re-evaluated on the fact's current contents before the action
 c the three views of working memory agree  d handles are never reused  e per-fact propagation."""
+from collections import defaultdict
 from sa import analyses as A
 from sa.ir import strip, fmt_sym, walk, mentions_call
 from sa.facts import Broken
@@ -151,6 +152,48 @@ def _fire_all(P, R, fn):
         why = "no evaluation of the rule's node on the matched fact inside the fire loop" if not evs else "an evaluation exists but does not guard the action / is not on the same rule's node / not on data read from working memory in this iteration"
         R.violate("b", "stale-activation:fire_all",
                   "IncrementalEngine::fire_all runs rule.action without re-evaluating the rule's condition on the matched fact's current contents (%s): an activation created before an update fires on contents that no longer satisfy the rule" % why, fn, act.line)
+    _fired_bookkeeping(P, R, fn, lp, entry, act)
+
+
+def _fired_bookkeeping(P, R, fn, lp, entry, act):
+    """f. an activation is recorded as fired (agenda.mark_rule_fired, and its name pushed on the returned list) on exactly
+    the iterations that run the rule's action: marking a skipped (stale / retracted) activation as fired suppresses every
+    later activation of a no-loop rule although a live fact still satisfies it."""
+    bev = defaultdict(list)
+    bev[act.bb].append("act")
+    n_mark = n_rep = 0
+    for c in fn.calls():
+        if c.bb not in lp["body"] or c.bb not in fn.normal_blocks():
+            continue
+        if c.name.endswith("AdvancedAgenda::mark_rule_fired"):
+            bev[c.bb].append("mark"); n_mark += 1
+        elif c.name == "std::vec::Vec::push" and len(c.args) > 1 and "rule_name" in fmt_sym(fn.sym_operand(c.args[1]), maxdepth=8):
+            recv = strip(fn.sym_operand(c.args[0]))
+            rets = [strip(x[1]) if isinstance(x, tuple) and len(x) == 2 and isinstance(x[0], int) else strip(x) for x in A.returned_syms(fn)]
+            if any(recv == r for r in rets):
+                bev[c.bb].append("report"); n_rep += 1
+    if n_mark == 0:
+        R.violate("f", "mark-absent", "fire_all never calls agenda.mark_rule_fired: no-loop and activation-group tracking is not updated when a rule fires", fn, act.line)
+        return
+    exits = set(t for (b, t, lab) in fn.loop_exits(lp)) | {lp["header"]}
+    sets, capped = A.path_event_sets(fn, bev, start=entry, stop_blocks=exits)
+    if capped:
+        R.undecide("f", "fire_all", "path enumeration capped", fn)
+        return
+    seqs = set()
+    for ex, ss in sets.items():
+        seqs |= ss
+    ok = True
+    for seq in sorted(seqs):
+        a, m, r = seq.count("act"), seq.count("mark"), seq.count("report")
+        if a == m and (n_rep == 0 or a == r) and a <= 1:
+            continue
+        ok = False
+        R.violate("f", "fired-bookkeeping:%s" % ",".join(seq),
+                  "fire_all has an iteration path with effects [%s]: the activation is %s. A skipped activation that is marked fired makes a no-loop rule never fire for the remaining live facts; a fired one that is not marked fires again" % (
+                      ",".join(seq), "marked/reported as fired without running the action" if a < max(m, r) else "run without being marked/reported"), fn, act.line)
+    if ok:
+        R.hold("f", "fire_all: mark_rule_fired / returned-name push happen on exactly the iterations that run the action", "%d distinct iteration effect sequences: %s" % (len(seqs), sorted(seqs)), fn)
 
 
 def _built_from_wm_get(fn, evcall, lp):
